@@ -73,7 +73,30 @@ def r1(ctx):
     # `?` inside the directory loop would abort the remaining entries: only check_file's result may be propagated
     hir = ctx.anchor_hir(VISIT_DIR)
     qs = [x for x in walk_exprs(hir) if x["k"] == "Match" and x.get("src") == "TryDesugar(HirId(DefId(0:0 ~ x).0))" or (x["k"] == "Match" and str(x.get("src", "")).startswith("TryDesugar"))]
-    bad = [render(q["scrut"])[:60] for q in qs if "check_file" not in render(q["scrut"])]
+    def is_try(x):
+        return x["k"] == "Match" and str(x.get("src", "")).startswith("TryDesugar")
+
+    def only_check_file_errors(e, depth=0):
+        """the failure a `?` propagates can only be check_file's (a closed or failing output): the operand is the check_file call,
+        or a helper (inlined by the normaliser) whose every result is Ok(..) or itself such a propagation"""
+        e = peel(e, methods=False)
+        if e["k"] == "Call" and str(e.get("callee", "")).endswith("Try::branch") and e["args"]:
+            e = peel(e["args"][0], methods=False)
+        if e["k"] in ("MCall", "Call") and (e.get("m") == "check_file" or str(e.get("callee", "")).endswith("::check_file")):
+            return True
+        if e["k"] == "Block" and e.get("inl") and depth < 4:
+            inner = [x for x in walk_exprs(e) if is_try(x)]
+            if not all(only_check_file_errors(x["scrut"], depth + 1) for x in inner):
+                return False
+            for leaf, _holder in leaf_results(e):
+                l_ = peel(leaf, methods=False)
+                if is_try(l_) or any(l_ is y for x in inner for y in walk_exprs(x)):
+                    continue
+                if not (l_["k"] == "Call" and l_.get("ctor") and str(l_.get("callee", "")).endswith("Result::Ok")):
+                    return False
+            return True
+        return False
+    bad = [render(q["scrut"])[:60] for q in qs if not only_check_file_errors(q["scrut"])]
     ctx.obligation(not bad)
     ctx.covered("`?` propagation sites in visit_dir", len(qs), distinct_keys=["try:%d" % len(qs)])
     if bad:
